@@ -190,7 +190,14 @@ Sem(op, a, T) ==
 ReadSem(text, sep, header, rn) ==
   LET L == TextLines(text)  P == ParseTable(text, sep, header) IN
   IF Len(L) < 2 THEN [decided |-> FALSE, refuse |-> {}, post |-> NoTable]
-  ELSE IF ~P.ok THEN [decided |-> TRUE, refuse |-> {DIM}, post |-> NoTable]
+  ELSE IF ~P.ok
+       THEN \* a line with the wrong number of fields: DimensionException, unless a duplicated name is met first
+            LET F  == [i \in DOMAIN L |-> Fields(L[i], sep)]
+                n1 == Len(F[1])  n2 == Len(F[2])
+                firsts == [i \in 1..(Len(L) - 1) |-> IF F[i + 1] = <<>> THEN <<>> ELSE F[i + 1][1]] IN
+            [decided |-> TRUE, post |-> NoTable,
+             refuse |-> {DIM} \cup If((n1 = n2 - 1 \/ (n1 = n2 /\ header)) /\ ~Distinct(F[1]), DUPC)
+                              \cup If(n1 = n2 - 1 /\ ~Distinct(firsts), DUPR)]
   ELSE LET T0 == [ncol |-> P.ncol, nrow |-> P.nrow, cols |-> P.cols, rows |-> P.rows, cells |-> P.cells]
            n1 == Len(Fields(L[1], sep))
            bad0 == If(~Distinct(P.cols), DUPC) \cup If(~Distinct(P.rows), DUPR) IN
